@@ -478,13 +478,25 @@ func c20WorldFees(t *testing.T, g *rng) *c20Rich {
 			}
 		}
 	}
+	// an exhausted net-fee record: the collected fees of one (app, asset) drawn down to exactly zero (what
+	// surplus pay-outs and locker rewards do through DecreaseNetFeeCollectedData); the record stays, with
+	// amount 0, and has to survive the round trip like any other
+	exhausted := 0
+	if g.chance(60) {
+		app, as := apps[g.intn(2)], assets[1+g.intn(2)]
+		if d, ok := a.CollectorKeeper.GetNetFeeCollectedData(w.ctx, app, as); ok && d.NetFeesCollected.IsPositive() {
+			if err := a.CollectorKeeper.DecreaseNetFeeCollectedData(w.ctx, app, as, d.NetFeesCollected); err == nil {
+				exhausted = 1
+			}
+		}
+	}
 	w.c13Advance(int64(10 + g.intn(80)))
 	v1s, v1d := 0, 0
 	for _, app := range apps {
 		v1s += len(a.AuctionKeeper.GetSurplusAuctions(w.ctx, app))
 		v1d += len(a.AuctionKeeper.GetDebtAuctions(w.ctx, app))
 	}
-	label := fmt.Sprintf("ops=%d dutch-partial=%d lockers=%d vaults=%d v1surplus=%d v1debt=%d v2auctions=%d v2bids=%d", nops, dutch, len(a.LockerKeeper.GetLockers(w.ctx)), len(a.VaultKeeper.GetVaults(w.ctx)),
+	label := fmt.Sprintf("ops=%d dutch-partial=%d exhausted-net-fee=%d lockers=%d vaults=%d v1surplus=%d v1debt=%d v2auctions=%d v2bids=%d", nops, dutch, exhausted, len(a.LockerKeeper.GetLockers(w.ctx)), len(a.VaultKeeper.GetVaults(w.ctx)),
 		v1s, v1d, len(a.NewaucKeeper.GetAuctions(w.ctx)), len(a.NewaucKeeper.GetUserBids(w.ctx)))
 	c20Debug("world fees: %s", label)
 
